@@ -90,13 +90,13 @@ if __name__ == "__main__":
       "Proof (partial: token level): for every IRI, lexical form, local name, language tag and label the Turtle formatter's output is read back by the decoder's token producer as the same value (iriref_roundtrip, string_roundtrip, pname_roundtrip under PNLocalOK, langtag/bnode round trips), a literal written in bare shorthand is read back with the same datatype AND lexical form (shorthand_sound, shorthand_datatypes), producers never panic; generic in the T1 tables regenerated from encoding/turtle and encoding/trig. Document level: the encoder is modelled byte for byte (Model/TurtleEncoder.lean) and plain-triple mode is proved for EVERY configuration (plain_doc_roundtrip / plain_doc_iso: buffered or not, sorted or not, @/SPARQL/disabled directives with the same defaults given to the decoder; writeIRI_expand through the prefixed, relative and absolute branches, citing C13 and the token theorems; the decoder side is the Turtle statement machine of Model/TurtleDoc.lean). Nested-resource mode: proved for flat resources (resources_doc_roundtrip_partial); the full nested statement ([ ] property lists, ( ) collections, anonymous roots, composition with the C17 export) stays a def and is covered by T3 (bytes) and the encode -> decode isomorphism oracle.",
       "Trusted: Lean kernel; standard axioms at most; T1 extractor (ttl); T3 harnesses c02tok (producers/formatters of both packages) and c02 (encoder bytes, order parameters taken from the real PrefixManager/ResourceListBuilder); the resolver is a parameter constrained to the C12 domain (stableUnder); nested-resource mode beyond flat resources by T3 + oracle.",
       "Lean 4 round-trip theorems for every Turtle token kind over T1-regenerated tables + T3 of producers/formatters + encode/decode isomorphism oracle")
-    assemble("C07", [("C07NQ.part", None, None), ("C02T.fragment", r"C07\.", "C07"), ("C05Ttl", r"C07\.", "C07")],
+    assemble("C07", [("C07NQ.part", None, None), ("C02T.fragment", r"C07\.", "C07"), ("C05Ttl", r"C07\.", "C07"), ("C08D", r"C07\.", None)],
       "proof (partial)",
       "Proof: N-Triples in N-Quads at document level (nt_sub_nq: a document the N-Triples model accepts is accepted by the N-Quads model with the same statements, all in the default graph; per-step next_nt_quad/next_nt_done; run_congr + gen_decoder_tables_equal transfer it to the two real packages' regenerated tables: nt_sub_nq_real). Table, token and scan-function level for Turtle/TriG: the four packages' PN_CHARS_BASE and HexDecode tables are identical and PN_CHARS_U/PN_CHARS differ exactly by ':' between {ntriples,nquads} and {turtle,trig} (tables_agree, by decide on T1 tables of all four packages; the W3C grammars' own difference is known finding C07-bnode-label-colon); what the N-Triples IRIREF/string scanners accept the Turtle producers read identically; every Turtle scan function except the top-level one is independent of the trig flag (step_flag_independent, ttl_sub_trig_partial). Whole-document inclusion NT in Turtle/TriG and Turtle in TriG is corresponded: the harnesses run the same bytes through all four real decoders (encoder output, grammar-directed documents, all positive W3C N-Triples/Turtle files); one Lean model serves both Turtle and TriG so a drift between the duplicated copies shows as a T3 disagreement of one package.",
-      "Trusted: as C05 for the Turtle/TriG model; ttl_sub_trig and nt_sub_ttl are stated as defs (being proved: props/C08D.json).",
+      "Trusted: as C05 for the Turtle/TriG model; Turtle in TriG is proved for every printed (grammatical) document (ttl_sub_trig_grammatical_partial) and NT in Turtle/TriG for the N-Triples encoder's own output (nt_encoder_sub_ttl_*); the unrestricted ttl_sub_trig / nt_sub_ttl over all inputs remain defs, covered by the four-decoder oracle.",
       "Lean 4 document-level theorem NT in NQ + table/token/scan-function theorems + four-decoder differential oracle")
-    assemble("C08", [("C02T.fragment", r"C08\.", "C08"), ("C05Ttl", r"doc_emits_wf|ttl_doc_total_real", "C05")],
+    assemble("C08", [("C08D", r"C08\.", None), ("C02T.fragment", r"C08\.", "C08"), ("C05Ttl", r"doc_emits_wf|ttl_doc_total_real", "C05")],
       "proof (partial)",
-      "Proof (partial: token level): for every token kind and every lexical choice of the printer Spec/TurtlePrinter.lean (IRIREF raw or \\u/\\U per rune in either hex case; four string styles with raw/ECHAR/UCHAR per rune; prefixed names raw, PN_LOCAL_ESC or PERCENT per rune; numeric and boolean shorthand; language tags; blank node labels) the decoder's producer returns the token's value (decode_print_*). Statement level: the Turtle/TriG statement machine is modelled (Model/TurtleDoc.lean) and corresponded on the W3C suites, generated documents and mutations; the denotational document-level theorem (decode_print_flat / decode_print) is being added (props/C08D.json).",
-      "Trusted: as C02/C05; the abstract-syntax denotation is not yet part of the check.",
+      "Proof (partial: token level): for every token kind and every lexical choice of the printer Spec/TurtlePrinter.lean (IRIREF raw or \\u/\\U per rune in either hex case; four string styles with raw/ECHAR/UCHAR per rune; prefixed names raw, PN_LOCAL_ESC or PERCENT per rune; numeric and boolean shorthand; language tags; blank node labels) the decoder's producer returns the token's value (decode_print_*). Document level: Spec/TurtleAbstract.lean gives the abstract syntax of Turtle 1.1 / TriG 1.1, its denotation (Turtle section 7) and a printer with every lexical and layout choice; decode_print_partial proves, for every well-formed document with [ ] and ( ) nested to ANY depth, every choice, Turtle and TriG, base present or absent: TtlDoc.run (print doc ch) = denote doc, same statements in the same order, clean verdict (decode_print_real for the regenerated tables). It is named _partial because three exhibited decoder deviations are excluded by hypothesis and listed as known findings (keyword glued to the next token, prefix labels starting with true/false, U+1680 in prefix labels); the unrestricted statement stays a def, refuted by decide witnesses.",
+      "Trusted: as C02/C05; the resolver is a parameter compared on a safe fragment (about 5% resolver skips); the printer prints no layout between a string and its @lang/^^datatype.",
       "Lean 4 printer/producer theorems per token kind + T3 of the statement machine against both decoders")
